@@ -36,7 +36,8 @@ def cfg_list(e):
     if n == "parse_space_packets":
         return [{"ids": "auto", "one": True}, {"ids": "auto", "one": False}]
     if n == "TransferFrame.unpack":
-        return [{"ft": ft, "iz": iz, "fecf": fe, "n": "auto"} for ft in ("fixed", "variable") for iz in (None, 2) for fe in (None, 2, 4)]
+        return [{"ft": ft, "iz": iz, "fecf": fe, "n": "auto", "pc": pc, "iz_off": 4 if iz is None else None, "fecf_off": 2 if fe is None else None}
+                for ft in ("fixed", "variable") for pc in ("fixed", "variable") for iz in (None, 2) for fe in (None, 2, 4)]
     if n == "FileDirectivePduBase.parse_fss_field":
         return [{"large": lg, "idx": i} for lg in (0, 1) for i in (0, 1, 5)]
     if n == "TransferFrameDataField.unpack":
